@@ -68,8 +68,11 @@ def run(ctx):
     nmax = ctx.pick(8, 10)
 
     def make_dataset(r, n, nchrom):
-        names = ["chr%d" % (i + 1) for i in range(nchrom)]
-        per = sorted(r.choice(names) for _ in range(n))
+        # the keys are grouped in the order of the genome, which need not be the byte order of the names (chr2 before chr10, chrX before chrM)
+        pool = r.choice([["chr%d" % (i + 1) for i in range(12)], ["chr%d" % (i + 1) for i in range(12)], ["chr1", "chr2", "chr10", "chr11", "chr3", "chrX", "chrM", "chr20"],
+                         ["chr9", "chr10", "chr100", "chrX", "chrM", "b", "a", "B"], ["chrX", "chrM", "chr2", "chr10", "10", "9", "chr1_alt", "chr1"]])
+        names = pool[:nchrom]
+        per = sorted((r.choice(names) for _ in range(n)), key=names.index)
         rows, pos = [], {}
         for c in per:
             a = pos.get(c, 0) + r.randint(0, 6)
@@ -108,7 +111,7 @@ def run(ctx):
         # references on the concatenated data
         ref = {
             "mean": float(np.mean(t.start)), "mean0": np.mean(mat, axis=0), "bincount": np.bincount(t.score), "hist": np.histogram(t.stop, bins=5, range=(0, 100))[0],
-            "groups": [(k, [x[3] for x in rows if x[0] == k]) for k in sorted(set(x[0] for x in rows))],
+            "groups": [(k, [x[3] for x in rows if x[0] == k]) for k in sorted(set(x[0] for x in rows), key=names.index)],
         }
         big_values = np.array([r.choice([-2 ** 60, 2 ** 60, 1, 1, 3, -2 ** 59, 2 ** 59]) for _ in rows], dtype=np.int64)
         ref["big_values"] = big_values
@@ -144,7 +147,19 @@ def run(ctx):
                     wins.append((c, st, st + r.randint(1, ln - 1)))
         win_t = Interval([w[0] for w in wins], np.array([w[1] for w in wins], dtype=int), np.array([w[2] for w in wins], dtype=int)) if wins else None
         ref["under_windows"] = rows_under(pile[genome.get_intervals(win_t)]) if wins else None
-        wit = {"rows": rows, "seqs": seqs, "seed": case["seed"], "windows": wins}
+        # a second genome whose chromosomes end at or before the last stops: some intervals reach the end exactly, some hang over it
+        sizes_c = {}
+        for c in names:
+            mine_c = [x for x in rows if x[0] == c]
+            sizes_c[c] = max(max([x[2] for x in mine_c]) - r.choice([0, 0, 1, 2, 4]), max(x[1] for x in mine_c) + 1) if mine_c else r.randint(1, 9)
+        genome_c = bnp.Genome.from_dict(sizes_c)
+        dense_c = {c: [0] * sizes_c[c] for c in names}
+        for c, a, b, *_ in rows:
+            for q in range(a, min(b, sizes_c[c])):
+                dense_c[c][q] += 1
+        ref["clip_sum"] = sum(sum(v) for v in dense_c.values())
+        ref["clip_dense"] = dense_c
+        wit = {"rows": rows, "seqs": seqs, "seed": case["seed"], "windows": wins, "sizes_of_the_clipping_genome": sizes_c}
         all_cuts = list(cutsets(n)) if n <= nmax else [tuple(sorted(r.sample(range(1, n), r.randint(0, min(n - 1, 12))))) for _ in range(12)] + [(), tuple(range(1, n))]
         for cuts in all_cuts:
             nt = (repr(rows), cuts) if cuts else None
@@ -214,6 +229,18 @@ def run(ctx):
             prow = [(c_, a_, b_, v_) for c_, a_, b_, v_ in zip(chrom_names(pd_.chromosome), np.asarray(pd_.start).tolist(), np.asarray(pd_.stop).tolist(), np.asarray(pd_.value).tolist()) if v_ != 0]
             chk("pipeline:merged(d)+pileup-of-the-same-intervals", np.asarray(both_res[0]).tolist() == np.asarray(mm.start).tolist() and np.asarray(both_res[1]).tolist() == np.asarray(mm.stop).tolist() and prow == ref["pileup_rows"],
                 [np.asarray(both_res[0]).tolist()[:5], np.asarray(both_res[1]).tolist()[:5], prow[:4]], [np.asarray(mm.start).tolist()[:5], np.asarray(mm.stop).tolist()[:5], ref["pileup_rows"][:4]])
+            # intervals that reach to, or hang over, the end of their chromosome are clipped first: clip -> pileup, streamed
+            sgc = genome_c.get_intervals(NpDataclassStream(iter(pieces(t.astype(Interval), cuts)), dataclass=Interval)).clip().get_pileup()
+            g = int(bnp.compute(sgc.sum()))
+            chk("pipeline:clip+pileup.sum", g == ref["clip_sum"], g, ref["clip_sum"])
+            pdc = bnp.compute(genome_c.get_intervals(NpDataclassStream(iter(pieces(t.astype(Interval), cuts)), dataclass=Interval)).clip().get_pileup().get_data())
+            g = {c_: [0] * sizes_c[c_] for c_ in names}           # per-base values (equal neighbouring runs need not be joined)
+            inside = True
+            for c_, a_, b_, v_ in zip(chrom_names(pdc.chromosome), np.asarray(pdc.start).tolist(), np.asarray(pdc.stop).tolist(), np.asarray(pdc.value).tolist()):
+                inside = inside and 0 <= a_ <= b_ <= sizes_c[c_]
+                for q in range(max(a_, 0), min(b_, sizes_c[c_])):
+                    g[c_][q] += v_
+            chk("pipeline:clip+pileup", inside and g == ref["clip_dense"], g, ref["clip_dense"])
             # windows of an odd and an even size around streamed locations
             for wsz in (ref["odd_window"], 4):
                 sloc = genome.get_intervals(NpDataclassStream(iter(pieces(t.astype(Interval), cuts)), dataclass=Interval)).get_location("start")
@@ -255,7 +282,7 @@ def run(ctx):
         size = sum(len("%s\t%d\t%d\t%s\t%d\t%s\n" % x) for x in rows)
         refm = float(np.mean(whole.start))
         refb = np.bincount(whole.score)
-        refg = [(k, [x[3] for x in rows if x[0] == k]) for k in sorted(set(x[0] for x in rows))]
+        refg = [(k, [x[3] for x in rows if x[0] == k]) for k in sorted(set(x[0] for x in rows), key=names.index)]
         for k in sorted({1, 7, 20, size // 2 + 1, size, size + 1}):
             def st():
                 return bnp.open(p, buffer_type=tables.get_buffer_type("Bed6Buffer")).read_chunks(min_chunk_size=k)
